@@ -94,6 +94,8 @@ def generate(rng, tier, rep):
         c['preset'] = bool(i % 2)
         # the streams in effect before the run may be any objects, falsy ones included
         c['falsy_streams'] = (i % 3 == 0)
+        # a previous run in the same interpreter, followed by other changes of the global state
+        c['warmup_run'] = (i % 4 == 1)
     for c in cases:
         rep.count('preset=%s' % c['preset'])
         rep.count('ending=' + c['ending'])
